@@ -14,7 +14,7 @@ import (
 
 type c17Client struct {
 	Transport string   `json:"transport"` // virtual: inproc | fconn ; real: inproc | tcp | ws
-	Ops       []string `json:"ops"`       // m (message) q (request) n (notification)
+	Ops       []string `json:"ops"`       // m (message) q (request) n (notification); upper case: from / pp names another session's node
 }
 
 type c17Case struct {
@@ -187,20 +187,32 @@ func c17RunClients(c *c17Case, dial func(kind string, idx int) (lime.Transport, 
 				tag := fmt.Sprintf("c%d-%d-%s", i, seq, k)
 				ctx, cancel := context.WithTimeout(context.Background(), 30*time.Second)
 				var err error
+				// upper case: the envelope names somebody else (another session's registered node) as its sender or delegate; the
+				// session it arrives on, and hence the handler's context, is still this client's
+				other := c17Assigned((i + 1) % (len(c.Clients) + 1))
 				switch k {
-				case "m":
+				case "m", "M":
 					m := &lime.Message{}
 					m.ID = tag
 					m.SetContent(lime.TextDocument("from " + tag))
+					if k == "M" {
+						m.From = other
+					}
 					err = r.ch.SendMessage(ctx, m)
-				case "q":
+				case "q", "Q":
 					q := &lime.RequestCommand{}
 					q.ID, q.Method = tag, lime.CommandMethodGet
 					q.SetURIString("/echo")
+					if k == "Q" {
+						q.PP = other
+					}
 					err = r.ch.SendRequestCommand(ctx, q)
 				default:
 					n := &lime.Notification{Event: lime.NotificationEventConsumed}
 					n.ID = tag
+					if k == "N" {
+						n.From = lime.Node{Identity: other.Identity}
+					}
 					err = r.ch.SendNotification(ctx, n)
 				}
 				cancel()
@@ -220,7 +232,7 @@ func c17Expected(c *c17Case) (handled int, replies int) {
 	for _, cl := range c.Clients {
 		for _, k := range cl.Ops {
 			handled++
-			if k != "n" {
+			if k != "n" && k != "N" {
 				replies++
 			}
 		}
@@ -315,7 +327,7 @@ func judgeC17(c *c17Case, obs *c17Obs, o *Outcome) {
 			if handledTags[tag] != 1 {
 				o.Fail("C17/handled-count", "envelope %s was handled %d times", tag, handledTags[tag])
 			}
-			if k != "n" {
+			if k != "n" && k != "N" {
 				want["re-"+tag]++
 			}
 		}
